@@ -2140,6 +2140,13 @@ def cxx_harness(meta):
             if o['kind'] == 'text' and not o.get('arr'):
                 sz = o['size']
                 szx = str(sz['const']) if 'const' in sz else d['ins'][sz['arg']]['lv']
+                # The caller's contract is in the signature: the size parameter of output buffer `X` is the one named after it (`XBufSize`,
+                # `XSize`, `XMaxLen` ...).  The buffer is allocated with THAT size, whatever size argument the body hands to GetStr / GetVarStr
+                # for it - a body that uses another buffer's size (seed C05-13) then writes outside this buffer, which the sanitizer reports.
+                cand = [x['lv'] for x in d['ins'] if x['kind'] == 'int' and re.search(r'size|len', x['name'], re.I)
+                        and x['name'].lower().startswith(o['name'].lower()) and x['name'].lower() != o['name'].lower()]
+                if len(cand) == 1:
+                    szx = cand[0]
                 L.append('    %s_sz = (size_t)(%s); %s = newbuf(%s_sz);' % (o['lv'], szx, o['lv'], o['lv']))
         args = ', '.join(['M'] + [('(char *)' + v if k == 'textnc' else v) for k, v, _ in d['params']])
         if d['kind'] == 'S':
